@@ -12,7 +12,7 @@ pub fn prop() -> Prop {
     Prop {
         id: "C08",
         level: "exploration",
-        rule: "(1) all token strings of length <= 3 over the full vocabulary (keywords, operators, delimiters, identifier spellings that embed/prefix/suffix keywords, numbers, strings) rendered with every per-gap separator choice from {nothing where maximal munch allows, space, newline, line comment}: the token stream must be the concatenation of the tokens of the pieces, every piece one token spanning exactly its text, keywords not identifiers, lexeme kept; (2) all strings of length <= 3 over {a, é, _, 1, 0, .} against a reference maximal-munch lexer; (3) all string contents of length <= 4 over 8 characters encoded with the documented escapes: the parsed String node must equal the content; all raw literal bodies of length <= 4 over {a, quote, backslash, n} followed by more input: the literal ends at the first unescaped quote and decodes as the reference decoder says; (3d) character sweep: every printable ASCII character, tab / newline / carriage return and 24 Unicode representatives (letters of several scripts and widths, digits, white space, combining mark, format characters, symbols), singly and in every ordered pair, inside / at the start / at the end of a word, raw and after a backslash in a string literal, inside / at the end of a comment, and between tokens (illegal characters must be refused); (3g) two literals next to each other (every ordered pair of 24 string contents, and strings next to numbers / names / keyword literals), separated by white space, a comma or a comment; (3f) escape sequences of other languages (a backslash before every ASCII letter and digit with 26 continuations: hex digits incl. surrogates, braces, octal): only the four documented escapes exist; (3e) runs of 1..6 backslashes followed by a quote, the end of the literal or more text, starting at every offset 0..40 (escaped and raw forms), and pairs of special characters adjacent or one apart at every position of literals up to 130 characters; (3c) token-length ladder: one identifier / digit run / fraction / string literal / comment / white-space run of every length around each power of two up to 1025 (8193 thorough), with one escape or wide character at every position near a multiple of 8 and at both ends; (4) nothing is dropped: a text with an illegal character, an unterminated string or a lone & or | is rejected by parse, and between consecutive token spans only white space and comments occur. Non-trivial = more than one token or a literal with an escape; distinct = distinct texts",
+        rule: "(1) all token strings of length <= 3 over the full vocabulary (keywords, operators, delimiters, identifier spellings that embed/prefix/suffix keywords, numbers, strings) rendered with every per-gap separator choice from {nothing where maximal munch allows, space, newline, line comment}: the token stream must be the concatenation of the tokens of the pieces, every piece one token spanning exactly its text, keywords not identifiers, lexeme kept; (2) all strings of length <= 3 over {a, é, _, 1, 0, .} against a reference maximal-munch lexer; (3) all string contents of length <= 4 over 8 characters encoded with the documented escapes: the parsed String node must equal the content; all raw literal bodies of length <= 4 over {a, quote, backslash, n} followed by more input: the literal ends at the first unescaped quote and decodes as the reference decoder says; (3d) character sweep: every printable ASCII character, tab / newline / carriage return and 24 Unicode representatives (letters of several scripts and widths, digits, white space, combining mark, format characters, symbols), singly and in every ordered pair, inside / at the start / at the end of a word, raw and after a backslash in a string literal, inside / at the end of a comment, and between tokens (illegal characters must be refused); (3h) ~5 000 code points (every one of U+0000-02FF, 2000-22FF, 2600-27FF, 3000-30FF, D700-D7FF, E000-E0FF, FE00-FFFF, 1F300-1F6FF, 1F900-1F9FF, 2F800-2F8FF, E0000-E01FF, 10FF00-10FFFF) inside a string literal, a comment and an identifier; (3g) two literals next to each other (every ordered pair of 24 string contents, and strings next to numbers / names / keyword literals), separated by white space, a comma or a comment; (3f) escape sequences of other languages (a backslash before every ASCII letter and digit with 26 continuations: hex digits incl. surrogates, braces, octal): only the four documented escapes exist; (3e) runs of 1..6 backslashes followed by a quote, the end of the literal or more text, starting at every offset 0..40 (escaped and raw forms), and pairs of special characters adjacent or one apart at every position of literals up to 130 characters; (3c) token-length ladder: one identifier / digit run / fraction / string literal / comment / white-space run of every length around each power of two up to 1025 (8193 thorough), with one escape or wide character at every position near a multiple of 8 and at both ends; (4) nothing is dropped: a text with an illegal character, an unterminated string or a lone & or | is rejected by parse, and between consecutive token spans only white space and comments occur. Non-trivial = more than one token or a literal with an escape; distinct = distinct texts",
         assumptions: &[
             "token kinds are compared through their Debug rendering, learnt from single-token inputs (no kind name is hard-coded); the documented token shapes are those of printer::may_touch and the reference lexer in this file",
         ],
@@ -354,6 +354,50 @@ pub fn full_alphabet() -> Vec<char> {
     v
 }
 
+/// A few thousand code points: every one in the first three blocks and in the blocks where punctuation, symbols,
+/// variation selectors, presentation forms, emoji, tags and the last plane live (so that every low byte, every
+/// UTF-8 length and every special-purpose character class occurs), surrogates excluded by construction.
+pub fn code_points() -> Vec<char> {
+    let mut v: Vec<char> = Vec::new();
+    for (a, b) in [(0x00u32, 0x2FF), (0x2000, 0x22FF), (0x2600, 0x27FF), (0x3000, 0x30FF), (0xD700, 0xD7FF), (0xE000, 0xE0FF), (0xFE00, 0xFFFF), (0x1F300, 0x1F6FF), (0x1F900, 0x1F9FF), (0x2F800, 0x2F8FF), (0xE0000, 0xE01FF), (0x10FF00, 0x10FFFF)] {
+        for cp in a..=b {
+            if let Some(c) = char::from_u32(cp) {
+                v.push(c);
+            }
+        }
+    }
+    v
+}
+
+/// Code point sweep in the lexer: each code point inside a string literal, inside a comment, and (when it is a
+/// letter or digit) inside an identifier.
+fn code_point_sweep(sh: &mut Shard) {
+    for c in code_points() {
+        if !sh.mine() {
+            continue;
+        }
+        let texts: Vec<(String, Option<Vec<Stmt>>)> = vec![
+            (
+                if c == '"' || c == '\\' { format!("\"a\\{c}b\" ; 7") } else { format!("\"a{c}b\" ; 7") },
+                Some(vec![Stmt::Expr(Expr::String { value: format!("a{c}b") }), Stmt::Expr(Expr::Int { value: 7 })]),
+            ),
+            (if c == '\n' { "// a\n7".to_string() } else { format!("// a{c}b\n7") }, Some(vec![Stmt::Expr(Expr::Int { value: 7 })])),
+            (format!("x{c}y"), if c.is_alphanumeric() || c == '_' { Some(vec![Stmt::Expr(Expr::Identifier(format!("x{c}y")))]) } else { None }),
+        ];
+        sh.begin(&|| format!("code point U+{:04X}", c as u32));
+        sh.count("family:code-points");
+        sh.nontrivial(&(c as u32));
+        for (text, want) in texts {
+            match (parse_guarded(&text), want) {
+                (Parsed::Panic(p), _) => fail(sh, "code-points", &text, format!("panic: {p}")),
+                (Parsed::Ok(ast), Some(w)) if ast != w => fail(sh, "code-points", &text, format!("U+{:04X}: the parser returned {ast:?}", c as u32)),
+                (Parsed::Err(e), Some(_)) => fail(sh, "code-points", &text, format!("U+{:04X}: rejected: {e}", c as u32)),
+                _ => {}
+            }
+        }
+    }
+}
+
 /// Character sweep: EVERY character of the full alphabet (and every ordered pair of them) in each lexical
 /// context: inside / at the start / at the end of a word, raw and after a backslash inside a string literal,
 /// inside and at the end of a comment, and between two tokens. Expectations come from the character's
@@ -613,6 +657,7 @@ fn adjacent_literals(sh: &mut Shard) {
 fn run(sh: &mut Shard) {
     let tier = sh.cfg.tier;
     length_ladder(sh);
+    code_point_sweep(sh);
     adjacent_literals(sh);
     foreign_escapes(sh);
     backslash_runs(sh);
@@ -913,7 +958,7 @@ fn replay(sh: &mut Shard, case: &Value) {
 }
 
 fn vacuity(m: &Merged) -> Option<String> {
-    for fam in ["sequences", "words", "length-ladder", "adjacent-literals", "backslash-runs", "foreign-escapes", "char-sweep", "string-contents", "raw-bodies", "illegal", "spans"] {
+    for fam in ["sequences", "words", "length-ladder", "code-points", "adjacent-literals", "backslash-runs", "foreign-escapes", "char-sweep", "string-contents", "raw-bodies", "illegal", "spans"] {
         if m.counters.get(&format!("family:{fam}")).copied().unwrap_or(0) == 0 {
             return Some(format!("family {fam} produced no case"));
         }
